@@ -36,3 +36,27 @@ fn c16_parse_frames_bounded() {
     }
     assert!(frames.len() == n);
 }
+
+/// parse_frames_with_offset: the assumed contract used by the incremental-extractor proof
+/// (frames of parse_frames + the bytes they occupy), checked here on small inputs
+#[kani::proof]
+#[kani::unwind(8)]
+fn c16_frames_with_offset_bounded() {
+    let buf: [u8; N] = kani::any();
+    let len: usize = kani::any();
+    kani::assume(len <= N);
+    let max: u32 = kani::any();
+    kani::assume(max <= 24);
+    let parser = Http2Parser::with_config(Http2Config { max_frame_size: max, max_streams: 100, enable_hpack: false, strict_parsing: false });
+    let (frames, consumed) = parser.parse_frames_with_offset(&buf[..len]).unwrap();
+    let mut pos = 0usize;
+    let mut n = 0usize;
+    while len - pos >= 9 {
+        let l = ((buf[pos] as usize) << 16) | ((buf[pos + 1] as usize) << 8) | buf[pos + 2] as usize;
+        if l > max as usize || len - pos < 9 + l { break; }
+        pos += 9 + l;
+        n += 1;
+    }
+    assert!(frames.len() == n && consumed == pos);
+    assert!((n > 0) == (consumed > 0));
+}
